@@ -2,10 +2,18 @@
 //! explorer <ID> [--tier quick|thorough] [--replay <file>]
 //! Decides verdicts; never links yarel.  Exit 0: property held on everything explored (known findings
 //! are printed, not alarms); exit 1: VIOLATION line(s); exit >= 2: machinery failure, no verdict.
+mod ast;
 mod c03;
+mod c05;
 mod common;
 mod corpus;
+mod diff;
 mod lexer;
+mod mcheck;
+mod meval;
+mod mnat;
+mod mresolve;
+mod mval;
 mod mvm;
 mod pool;
 
@@ -59,6 +67,7 @@ fn main() {
     let _ = replay;
     let report = match id.as_str() {
         "C03" => c03::run(&ctx),
+        "C05" => c05::run(&ctx),
         _ => {
             eprintln!("unknown property id {}", id);
             std::process::exit(2);
